@@ -82,7 +82,33 @@ func concGroups(env *core.Env, groups int) []core.Case {
 			}
 			subs = append(subs, c)
 		}
-		res = append(res, gen.M{"drv": "conc", "subs": subs, "repeat": 0, "budgetMs": 30000, "ev": []gen.M{}})
+		lanes := 0
+		if g%2 == 1 && k >= 4 { // fewer goroutines than instances: each goroutine runs several instances in a row
+			lanes = 2 + r.Intn(k/2)
+		}
+		res = append(res, gen.M{"drv": "conc", "subs": subs, "lanes": lanes, "repeat": 0, "budgetMs": 30000, "ev": []gen.M{}})
+	}
+	// instances that end through rarely taken exits, each followed in the same goroutine by small instances
+	// that are counted: PB problems the cutting-planes strategy refutes by search (selected by drive.Scan
+	// on that behaviour), then CNF problems with at most half as many variables
+	cpu := scanCandidatesN(env, "cpunsat", env.Pick(6000, 40000), true, env.Pick(100, 600), env.Pick(1600, 9600), scanPB)
+	for len(cpu) >= 20 {
+		take := 100
+		if take > len(cpu) {
+			take = len(cpu)
+		}
+		var subs []gen.M
+		for _, m := range cpu[:take] {
+			m["filler"] = true // executed, not validated: it is there for what it may leave behind
+			subs = append(subs, m)
+			nv := 4 + r.Intn(3)
+			clauses := gen.RandKSAT(r, nv, 2*nv, 2+r.Intn(2))
+			c := gen.APICase("slicenb", nv, true, gen.ClauseCtors(clauses), false, nil, gen.Cfg(false, 0, 0, false, false, false), []gen.M{gen.Op("count")})
+			c["tm"] = "APITrace"
+			subs = append(subs, c)
+		}
+		cpu = cpu[take:]
+		res = append(res, gen.M{"drv": "conc", "subs": subs, "lanes": 2 * (1 + r.Intn(2)), "repeat": 0, "budgetMs": 60000, "ev": []gen.M{}})
 	}
 	return res
 }
@@ -165,6 +191,10 @@ func init() {
 				for si, sraw := range subs {
 					st, _ := sraw.(map[string]any)
 					if st == nil {
+						continue
+					}
+					if b(st, "filler") {
+						res.Cov["conc.fillers"]++
 						continue
 					}
 					st["id"] = fmt.Sprintf("%s.%d", t["id"], si)
